@@ -30,11 +30,23 @@ var fracLens = [...]int{0, 1, 2, 17, 18, 19, 20}
 var expForms = [...]string{"", "e1", "E+12", "e-3", "e0007"}
 
 // numberLiteral builds -?I(.F)?(e[+-]?X)? with all digits of I and F symbolic.
-func numberLiteral() (lit string, desc string) {
+// With F19 set (quick tier) one extra shape is added to the K2 menu: a 19
+// digit fraction (the FillBig threshold) in the simplest surroundings only.
+func numberLiteral() (lit string, desc string, special bool) {
 	neg := vx.Choose("neg", 2) == 1
 	k1 := intLens[vx.Choose("k1", vx.Param("K1", len(intLens)))]
-	k2 := fracLens[vx.Choose("k2", vx.Param("K2", len(fracLens)))]
+	nk2 := vx.Param("K2", len(fracLens))
+	i2 := vx.Choose("k2", nk2+vx.Param("F19", 0))
+	k2 := 19
+	if i2 < nk2 {
+		k2 = fracLens[i2]
+	} else {
+		special = true
+	}
 	ex := expForms[vx.Choose("exp", vx.Param("EXP", len(expForms)))]
+	if special && (neg || k1 != 1 || ex != "") {
+		vx.Assume(false)
+	}
 	if neg {
 		lit = "-"
 	}
@@ -108,7 +120,10 @@ func (h *tokNum) Number(v string) { h.vals = append(h.vals, json.Number(v)) }
 func VerifC02_Numbers() {
 	fe := vx.Choose("fe", vx.Param("FE", 5))
 	ctx := vx.Choose("ctx", vx.Param("CTX", 3))
-	lit, desc := numberLiteral()
+	lit, desc, special := numberLiteral()
+	if special && ctx != 0 {
+		vx.Assume(false)
+	}
 	vx.Key("fe", []string{"oj.Parse", "oj.ParseReader(1-byte)", "oj.Tokenize", "sen.Parse", "oj.TokenizeLoad(1-byte)"}[fe])
 	vx.Key("ctx", ctx)
 	vx.Key("shape", desc)
